@@ -3,6 +3,8 @@ import GlareModel.Core.SortKey
 import GlareModel.Core.Arith
 import GlareModel.Core.Cast
 import GlareModel.Core.SemParse
+import GlareModel.Core.Like
+import GlareModel.Core.Str
 
 /-! `gmodel`: line-protocol driver. Reads `case <n> <component> ...` lines on stdin and
 prints `out <n> ...` lines computed by the code-shaped model. -/
@@ -172,6 +174,54 @@ def runCast (args : List String) : String :=
     | _, _ => "bad-case"
   | _ => "bad-case"
 
+def utf8OfHex (h : String) : Option (List Char) :=
+  if h == "-" then some [] else
+  match parseHexBytes h with
+  | some bs => (String.fromUTF8? (ByteArray.mk (bs.map (·.toUInt8)).toArray)).map (·.toList)
+  | none => none
+
+def runLike (args : List String) : String :=
+  match args with
+  | [ph, sh] =>
+    match utf8OfHex ph, utf8OfHex sh with
+    | some p, some s =>
+      let k := match Like.classify p with
+        | .equal => "equal" | .prefix => "prefix" | .suffix => "suffix" | .contains => "contains" | .general => "general"
+      s!"{Like.likeMatch p s} {Like.rewriteEval p s} {k}"
+    | _, _ => "bad-case"
+  | _ => "bad-case"
+
+def runStr (args : List String) : String :=
+  let txt (cs : List Char) : String := hexOfChars cs
+  match args with
+  | ["left", sh, n] => match utf8OfHex sh, n.toInt? with
+    | some s, some n => txt (Str.left s n) | _, _ => "bad-case"
+  | ["right", sh, n] => match utf8OfHex sh, n.toInt? with
+    | some s, some n => txt (Str.right s n) | _, _ => "bad-case"
+  | ["substring2", sh, f] => match utf8OfHex sh, f.toInt? with
+    | some s, some f => txt (Str.substringFrom s f) | _, _ => "bad-case"
+  | ["substring3", sh, f, c] => match utf8OfHex sh, f.toInt?, c.toInt? with
+    | some s, some f, some c => txt (Str.substring s f c) | _, _, _ => "bad-case"
+  | ["repeat", sh, n] => match utf8OfHex sh, n.toInt? with
+    | some s, some n => txt (Str.repeat_ s n) | _, _ => "bad-case"
+  | ["reverse", sh] => match utf8OfHex sh with
+    | some s => txt s.reverse | _ => "bad-case"
+  | ["length", sh] => match utf8OfHex sh with
+    | some s => toString s.length | _ => "bad-case"
+  | ["lpad", sh, n, ph] => match utf8OfHex sh, n.toInt?, utf8OfHex ph with
+    | some s, some n, some p => txt (Str.lpad s n p) | _, _, _ => "bad-case"
+  | ["rpad", sh, n, ph] => match utf8OfHex sh, n.toInt?, utf8OfHex ph with
+    | some s, some n, some p => txt (Str.rpad s n p) | _, _, _ => "bad-case"
+  | ["strpos", sh, nh] => match utf8OfHex sh, utf8OfHex nh with
+    | some s, some n => toString (Str.strpos s n) | _, _ => "bad-case"
+  | ["starts_with", sh, nh] => match utf8OfHex sh, utf8OfHex nh with
+    | some s, some n => toString (n.isPrefixOf s) | _, _ => "bad-case"
+  | ["ends_with", sh, nh] => match utf8OfHex sh, utf8OfHex nh with
+    | some s, some n => toString (n.isSuffixOf s) | _, _ => "bad-case"
+  | ["contains", sh, nh] => match utf8OfHex sh, utf8OfHex nh with
+    | some s, some n => toString (Like.isInfix n s) | _, _ => "bad-case"
+  | _ => "bad-case"
+
 def step (line : String) : Option String :=
   -- `case N sem <payload>`: the payload keeps its spaces
   match (line.trimAscii.toString.splitOn " ") with
@@ -184,6 +234,8 @@ def step (line : String) : Option String :=
   | "case" :: n :: "arith" :: args => some s!"out {n} {runArith args}"
   | "case" :: n :: "sum" :: args => some s!"out {n} {runSum args}"
   | "case" :: n :: "cast" :: args => some s!"out {n} {runCast args}"
+  | "case" :: n :: "like" :: args => some s!"out {n} {runLike args}"
+  | "case" :: n :: "str" :: args => some s!"out {n} {runStr args}"
   | "case" :: n :: _ => some s!"out {n} bad-component"
   | _ => none
 
